@@ -607,6 +607,27 @@ func (w *World) scanBoth(what string, it iterator.Iterator, want []model.Pair) {
 			w.violate("%s: forward scan pair %d = %q=%q, model %q=%q", what, i, it.Key(), it.Value(), want[i].K, want[i].V)
 			return
 		}
+		if w.Scribble {
+			// a caller that builds a longer key from the exposed one (append) writes into the
+			// slice's spare capacity: that must not reach the exposed value, nor the other way round
+			k, v := it.Key(), it.Value()
+			fill := func(b []byte) {
+				ext := b[len(b):cap(b)]
+				for j := range ext {
+					ext[j] = 0xEE
+				}
+			}
+			fill(k)
+			if string(it.Key()) != want[i].K || string(it.Value()) != want[i].V {
+				w.violate("%s: appending to the exposed key of pair %d changed what the iterator exposes: %q=%q, model %q=%q", what, i, it.Key(), it.Value(), want[i].K, want[i].V)
+				return
+			}
+			fill(v)
+			if string(it.Key()) != want[i].K || string(it.Value()) != want[i].V {
+				w.violate("%s: appending to the exposed value of pair %d changed what the iterator exposes: %q=%q, model %q=%q", what, i, it.Key(), it.Value(), want[i].K, want[i].V)
+				return
+			}
+		}
 		i++
 	}
 	if i != len(want) {
